@@ -30,6 +30,14 @@ import (
 // with c18Canon(T).  c18Show is injective, so this is the same as comparing the lines byte for byte; the decoded
 // text is what the finding reports.
 
+//
+// DOMAIN.  Heads are single words.  The MySQL-style multi-word names the parser also accepts directly after AS / ::
+// (BIGINT UNSIGNED, DOUBLE PRECISION, CHAR VARYING, NATIONAL CHARACTER LARGE OBJECT, …) are not ClickHouse type
+// constructors and are not generated (nested, e.g. Array(BIGINT UNSIGNED), the parser rejects them).  `Tuple()` with
+// empty parentheses (printed as `Tuple`) is not generated either.
+//
+// KNOWN FINDINGS (generated at a low rate on purpose, so that the check reports them): see the hz* constants.
+
 func init() { props["C18"] = runC18 }
 
 // ---------------------------------------------------------------- the type algebra
@@ -224,23 +232,13 @@ var c18Listed = []string{"Int8", "Int16", "Int32", "Int64", "Int128", "Int256", 
 var c18Unlisted = []string{"IntervalDay", "IntervalSecond", "IntervalMonth", "LineString", "MultiLineString", "VARCHAR", "TEXT", "BIGINT",
 	"TINYINT", "REAL", "BLOB", "INET4", "MyType"}
 
-// multi-word names whose first word is listed (they work wherever a type can stand)
-var c18MultiListed = [][]string{{"DOUBLE", "PRECISION"}, {"INT", "UNSIGNED"}, {"INT", "SIGNED"}, {"double", "precision"}}
-
-// multi-word names whose first word is not listed (only directly after AS/::/an element name)
-var c18MultiUnlisted = [][]string{{"BIGINT", "UNSIGNED"}, {"TINYINT", "SIGNED"}, {"CHAR", "VARYING"}, {"CHARACTER", "LARGE", "OBJECT"},
-	{"NCHAR", "VARYING"}, {"BINARY", "LARGE", "OBJECT"}, {"BINARY", "VARYING"}, {"NATIONAL", "CHAR"}, {"NATIONAL", "CHARACTER", "VARYING"},
-	{"NATIONAL", "CHARACTER", "LARGE", "OBJECT"}, {"INTEGER", "UNSIGNED"}, {"SMALLINT", "SIGNED"}}
-
 var c18ElemNames = []string{"a", "b", "c", "x", "y", "id", "name", "value", "key", "k1", "_f", "col_2", "ts", "n", "s", "status", "type", "index", "A1"}
 var c18TypeLikeElemNames = []string{"date", "time", "string", "uuid", "point", "json", "bool", "Date", "int", "map", "tuple"}
 
-var c18TimeZones = []string{"UTC", "Europe/Moscow", "America/New_York", "Asia/Istanbul", "Etc/GMT+3", "Europe/Amsterdam", "", "Asia/Kolkata", "UCT", "W-SU"}
+var c18TimeZones = []string{"UTC", "Europe/Moscow", "America/New_York", "Asia/Istanbul", "Etc/GMT+3", "Europe/Amsterdam", "", "Asia/Kolkata", "UCT", "W-SU",
+	"UTC", "Europe/Moscow", "a'b", "'", "\\", "a\\b", "tab\tx", "it's", "\\'", "nl\nx", "\x00", "Ünï"}
 var c18EnumNames = []string{"a", "b", "c", "hello", "hello world", "", "Ünï", "привет", "a=b", "x,y", "(", ")", "--", "/*", "*/", "0", "NULL", " ",
-	"back\\slash", "\\", "tab\tx", "nl\nx", "cr\r", "nul\x00", "bs\b", "ff\f", "\\n", "a\"b", "`", "=", " = 1"}
-var c18HazardStr = []string{"a'b", "'", "\\", "a\\b", "tab\tx", "it's", "\\'"}
-var c18HazardEnum = []string{"a'b", "'", "it's", "''", "x\\'y"}
-
+	"back\\slash", "\\", "tab\tx", "nl\nx", "cr\r", "nul\x00", "bs\b", "ff\f", "\\n", "a\"b", "`", "=", " = 1", "a'b", "'", "it's", "''", "x\\'y"}
 var c18ListedSet = func() map[string]bool {
 	m := map[string]bool{}
 	for _, s := range []string{"INT", "INT8", "INT16", "INT32", "INT64", "INT128", "INT256", "UINT8", "UINT16", "UINT32", "UINT64", "UINT128", "UINT256",
@@ -283,12 +281,7 @@ func (g *tyGen) caseWord(w string) string {
 
 func (g *tyGen) plainName(pos tyPos) *Ty {
 	r := g.r
-	switch {
-	case r.Chance(1, 10):
-		return &Ty{Ctor: kName, Words: append([]string(nil), pick(r, c18MultiListed)...)}
-	case pos == posTop && r.Chance(1, 8):
-		return &Ty{Ctor: kName, Words: append([]string(nil), pick(r, c18MultiUnlisted)...)}
-	case pos != posUnnamed && r.Chance(1, 6):
+	if pos != posUnnamed && r.Chance(1, 6) {
 		return &Ty{Ctor: kName, Words: []string{pick(r, c18Unlisted)}}
 	}
 	return &Ty{Ctor: kName, Words: []string{g.caseWord(pick(r, c18Listed))}}
@@ -420,12 +413,13 @@ func (g *tyGen) buildWith(c tyCtor, depth int, pos tyPos, forceChild tyCtor, chi
 // ---------------------------------------------------------------- hazards (shapes outside the sub-grammar the real code handles)
 
 const (
-	hzNone      = ""
-	hzStrArg    = "string-arg-unescaped"       // A: string argument of a non-Enum type with a character that needs escaping
-	hzEnumQuote = "enum-quote-escape"          // B: Enum name containing a single quote
-	hzTupleName = "tuple-unlisted-type-name"   // C: unnamed Tuple element whose type name isDataTypeName does not list
-	hzElemName  = "tuple-element-named-as-type" // D: Tuple element name that is a type name, followed by a keyword-token / unlisted type
-	hzMultiWord = "multiword-name-nested"      // E: multi-word SQL type name with unlisted first word as an argument
+	hzNone = ""
+	// KNOWN (not repaired): an unnamed Tuple element whose type name isDataTypeName does not list is taken for an element
+	// name and the element is silently dropped: Tuple(IntervalDay, String) shows Tuple(String).
+	hzTupleName = "tuple-unlisted-type-name"
+	// KNOWN (not repaired): a Tuple element name that is itself a listed type name, followed by a type whose head is a
+	// keyword token (Array, Interval) or an unlisted name, is a parse error: Tuple(date Array(Date)).
+	hzElemName = "tuple-element-named-as-type"
 )
 
 func (t *Ty) walk(f func(*Ty)) {
@@ -437,34 +431,27 @@ func (t *Ty) walk(f func(*Ty)) {
 	}
 }
 
-// applyHazard mutates t into one hazard shape; reports which (hzNone if t offers no place for the chosen one).
-func (g *tyGen) applyHazard(t *Ty) string {
+// applyHazard mutates t into one known-finding shape; it reports which (hzNone if t offers no place for it) and, for
+// hzTupleName, the type the defect is known to show instead (t with the element dropped).
+func (g *tyGen) applyHazard(t *Ty) (string, func() string) {
 	r := g.r
 	var nodes []*Ty
 	t.walk(func(n *Ty) { nodes = append(nodes, n) })
-	want := pick(r, []string{hzStrArg, hzEnumQuote, hzTupleName, hzElemName, hzMultiWord})
+	want := pick(r, []string{hzTupleName, hzElemName})
 	for _, k := range r.perm(len(nodes)) {
 		n := nodes[k]
 		switch want {
-		case hzStrArg:
-			if n.Ctor == kDateTime || n.Ctor == kDateTime64 {
-				for i := range n.Args {
-					if n.Args[i].Kind == aStr {
-						n.Args[i].S = pick(r, c18HazardStr)
-						return want
-					}
-				}
-			}
-		case hzEnumQuote:
-			if n.Ctor == kEnum {
-				n.Args[r.Intn(len(n.Args))].S = pick(r, c18HazardEnum)
-				return want
-			}
 		case hzTupleName:
 			if n.Ctor == kTuple {
 				i := r.Intn(len(n.Args))
 				n.Args[i].T = &Ty{Ctor: kName, Words: []string{pick(r, c18Unlisted)}}
-				return want
+				return want, func() string {
+					saved := n.Args
+					n.Args = append(append([]TyArg(nil), saved[:i]...), saved[i+1:]...)
+					s := c18Canon(t)
+					n.Args = saved
+					return s
+				}
 			}
 		case hzElemName:
 			if n.Ctor == kNamedTuple {
@@ -478,17 +465,11 @@ func (g *tyGen) applyHazard(t *Ty) string {
 				case 2:
 					n.Args[i].T = &Ty{Ctor: kName, Words: []string{"Interval"}}
 				}
-				return want
-			}
-		case hzMultiWord:
-			if n.Ctor == kArray || n.Ctor == kNullable || n.Ctor == kMap || n.Ctor == kVariant || n.Ctor == kTuple {
-				i := r.Intn(len(n.Args))
-				n.Args[i].T = &Ty{Ctor: kName, Words: append([]string(nil), pick(r, c18MultiUnlisted)...)}
-				return want
+				return want, nil
 			}
 		}
 	}
-	return hzNone
+	return hzNone, nil
 }
 
 func (r *Rng) perm(n int) []int {
@@ -758,16 +739,21 @@ func runC18(w *W) {
 			t = g.gen(r.Intn(5), posTop)
 		}
 		hz := hzNone
-		if i >= nPairs*pairRounds && r.Chance(1, 16) {
-			hz = g.applyHazard(t)
+		var knownText func() string
+		if i >= nPairs*pairRounds && r.Chance(1, 32) {
+			hz, knownText = g.applyHazard(t)
 			if hz != hzNone {
-				desc = "hazard:" + hz
+				desc = "known-shape:" + hz
 			}
 		}
 		if !mine {
 			continue
 		}
-		c18Case(w, r, idx, t, hz, desc, useModel)
+		known := ""
+		if knownText != nil {
+			known = knownText()
+		}
+		c18Case(w, r, idx, t, hz, known, desc, useModel)
 	}
 	// the measured parent/child matrix of the whole run (every shard generates every case, so this is the same in all shards)
 	mx := map[string]map[string]int{}
@@ -803,17 +789,26 @@ func c18Depth(t *Ty) int {
 	return d
 }
 
-func c18Case(w *W, r *Rng, idx int, t *Ty, hz string, desc string, useModel bool) {
+// c18Case evaluates one type. hz names the known-finding shape t was mutated into (or hzNone); a failure gets the
+// known key only if it is exactly the known failure (hzTupleName: the real code shows knownText, the type with the
+// element dropped; hzElemName: a parse error); any other failure of such a type gets an ordinary key.
+func c18Case(w *W, r *Rng, idx int, t *Ty, hz string, knownText string, desc string, useModel bool) {
 	canon := c18Canon(t)
 	want := c18Show(canon)
 	w.Count("ctor/" + tyCtorName[t.Ctor])
 	w.Count(fmt.Sprintf("depth/%d", c18Depth(t)))
 	if hz != hzNone {
-		w.Count("hazard/" + hz)
+		w.Count("known-shape/" + hz)
 	}
-	key := func(k string) string {
-		if hz != hzNone {
+	// key of a failure: fail = why the real code produced nothing ("" if it did), got = the decoded type text it showed
+	key := func(k string, fail string, got string) string {
+		switch {
+		case hz == hzElemName && fail == "error":
 			return "type@" + hz
+		case hz == hzTupleName && fail == "" && got == knownText:
+			return "type@" + hz
+		case hz != hzNone:
+			return "type@" + k + "(in-known-shape:" + hz + ")"
 		}
 		return "type@" + k
 	}
@@ -849,7 +844,7 @@ func c18Case(w *W, r *Rng, idx int, t *Ty, hz string, desc string, useModel bool
 			}
 			if fail != "" {
 				w.Count("real/" + strings.SplitN(fail, ":", 2)[0])
-				w.Report(Finding{Kind: "type", Key: key(c18Blame(t, "")), Input: fmt.Sprintf("%q", in), InputHex: hexs(in),
+				w.Report(Finding{Kind: "type", Key: key(c18Blame(t, ""), fail, ""), Input: fmt.Sprintf("%q", in), InputHex: hexs(in),
 					Detail: fmt.Sprintf("%s: %s; canonical type text %q", posName, fail, canon)})
 				shown = "<" + fail + ">"
 			} else {
@@ -857,11 +852,11 @@ func c18Case(w *W, r *Rng, idx int, t *Ty, hz string, desc string, useModel bool
 				switch {
 				case why != "":
 					w.Count("real/undecodable")
-					w.Report(Finding{Kind: "type", Key: key(c18Blame(t, shown)), Input: fmt.Sprintf("%q", in), InputHex: hexs(in),
+					w.Report(Finding{Kind: "type", Key: key(c18Blame(t, shown), "", "\x00undecodable"), Input: fmt.Sprintf("%q", in), InputHex: hexs(in),
 						Detail: fmt.Sprintf("%s: the shown literal is not a well-formed string literal (%s)\nshown    Literal %s\nexpected Literal %s\ncanonical type text %q", posName, why, shown, want, canon)})
 				case got != canon:
 					w.Count("real/differs")
-					w.Report(Finding{Kind: "type", Key: key(c18Blame(t, shown)), Input: fmt.Sprintf("%q", in), InputHex: hexs(in),
+					w.Report(Finding{Kind: "type", Key: key(c18Blame(t, shown), "", got), Input: fmt.Sprintf("%q", in), InputHex: hexs(in),
 						Detail: fmt.Sprintf("%s shows type text %q, canonical is %q\nshown    Literal %s\nexpected Literal %s", posName, got, canon, shown, want)})
 				default:
 					w.Count("real/ok")
@@ -874,13 +869,13 @@ func c18Case(w *W, r *Rng, idx int, t *Ty, hz string, desc string, useModel bool
 				shownOp, haveOp = shown, true
 			}
 			if fn && shown != shownFn || !fn && shown != shownOp {
-				w.Report(Finding{Kind: "type", Key: key("separators-matter"), Input: fmt.Sprintf("%q", in), InputHex: hexs(in),
+				w.Report(Finding{Kind: "type", Key: "type@separators-matter", Input: fmt.Sprintf("%q", in), InputHex: hexs(in),
 					Detail: fmt.Sprintf("%s: another separator spelling of the same tokens showed %q, this one %q", posName, map[bool]string{true: shownFn, false: shownOp}[fn], shown)})
 			}
 		}
 	}
 	if haveFn && haveOp && shownFn != shownOp {
-		w.Report(Finding{Kind: "type", Key: key("positions-differ"), Input: fmt.Sprintf("%q", canon), InputHex: hexs([]byte(canon)),
+		w.Report(Finding{Kind: "type", Key: "type@positions-differ", Input: fmt.Sprintf("%q", canon), InputHex: hexs([]byte(canon)),
 			Detail: fmt.Sprintf("CAST(x AS T) shows %q but x::T shows %q", shownFn, shownOp)})
 	}
 	if len(w.stats.Samples) < 6 && idx%997 == 0 {
